@@ -125,12 +125,13 @@ def wrap_locks(baton):
     return undo
 
 
-def run_pair(work1, work2, decide, observe, first=1, call_points=False):
+def run_pair(work1, work2, decide, observe, first=1, call_points=False, only=None):
     """run two callables on two fresh threads under the baton.
 
     call_points: every call of a Python function defined in the pycel package is
     a preemption point as well (a profile function installed on both threads),
     which reaches the windows inside the loading of a formula's functions.
+    only: names of the functions whose calls are preemption points (default all).
 
     work(tid) -> result; observe(tid, kind, formula, rest) is called at every
     hook event of thread tid (before the baton may change hands).
@@ -149,7 +150,8 @@ def run_pair(work1, work2, decide, observe, first=1, call_points=False):
         baton.point(tid)
 
     def prof(frame, event, arg):
-        if event == 'call' and PKG in frame.f_code.co_filename:
+        if event == 'call' and PKG in frame.f_code.co_filename and (
+                only is None or frame.f_code.co_name in only):
             tid = baton.me()
             if tid is not None and tid in baton.armed:
                 baton.point(tid)
